@@ -8,7 +8,7 @@
 EXTENDS CompressorFraming, PaZipStream, TLC
 
 KnownIds == {"C02-KF1", "C02-KF2", "C02-KF3", "C02-KF4", "C02-KF5", "C02-KF6", "C02-KF7", "C02-KF8",
-             "C02-KF9", "C02-KF10", "C02-KF11", "C02-KF12", "C02-KF13"}
+             "C02-KF9", "C02-KF10", "C02-KF11", "C02-KF12", "C02-KF13", "C02-KF14", "C02-KF15"}
 
 HasF(e, f) == f \in DOMAIN e
 
@@ -117,6 +117,24 @@ G13(e, subj) == /\ BadDecompress(e) /\ Current(e)
                 /\ subj.fam = "fse"
                 /\ e.ok /\ e.y.len = frames[e.id].x.len
 
+LegacyPaZip(subj) == subj.fam = "pazip" /\ subj.preset \notin {"reference", "reference_hash"}
+
+(* C02-KF14: PaZipCompressor::compress_parallel (enable_multithreading, inputs of 1 MiB and more) does not   *)
+(* clear the internal output buffer between its 64 KiB blocks: block i is written together with all earlier    *)
+(* blocks, the payload decompresses to a longer byte string.                                                   *)
+G14(e, subj) == /\ BadDecompress(e) /\ Current(e)
+                /\ LegacyPaZip(subj) /\ subj.preset # "realtime"
+                /\ frames[e.id].x.len >= 1048576
+                /\ e.ok /\ e.y.len > frames[e.id].x.len
+
+(* C02-KF15: a global match is not cut to the 256-byte pattern limit (find_longest_match ignores max_length)  *)
+(* and its length is stored as u16: a match of 65536 bytes or more loses 65536 * k bytes.                      *)
+G15(e, subj) == /\ BadDecompress(e) /\ Current(e)
+                /\ LegacyPaZip(subj)
+                /\ frames[e.id].note.globals > 0
+                /\ e.ok /\ e.y.len < frames[e.id].x.len
+                /\ (frames[e.id].x.len - e.y.len) % 65536 = 0
+
 DevApplies(id, e, subj) ==
     \/ id = "C02-KF1" /\ G1(e, subj)
     \/ id = "C02-KF2" /\ G2(e, subj)
@@ -131,6 +149,8 @@ DevApplies(id, e, subj) ==
     \/ id = "C02-KF11" /\ G11(e, subj)
     \/ id = "C02-KF12" /\ G12(e, subj)
     \/ id = "C02-KF13" /\ G13(e, subj)
+    \/ id = "C02-KF14" /\ G14(e, subj)
+    \/ id = "C02-KF15" /\ G15(e, subj)
 
 (* every deviation is a wrong or missing answer that leaves the abstract state alone *)
 KnownDeviation(id, e, subj) == DevApplies(id, e, subj) /\ UNCHANGED fvars
